@@ -140,6 +140,31 @@ func loadKnown(path string) (*knownFile, error) {
 	return &k, nil
 }
 
+// failing reports whether some obligation is violated/undecided and not covered by a listed known finding, or a rule
+// matched fewer instances than its floor.
+func (r *Report) failing(known *knownFile) bool {
+	for _, ri := range r.rules {
+		if ri.n < ri.Min {
+			return true
+		}
+	}
+	for _, o := range r.Obs {
+		if o.Status == "discharged" {
+			continue
+		}
+		listed := false
+		for _, k := range known.Open {
+			if k.Property == r.Property && k.Rule == o.Rule && k.Construct == o.Construct && o.Status == "violated" {
+				listed = true
+			}
+		}
+		if !listed {
+			return true
+		}
+	}
+	return false
+}
+
 // Finish prints the report, writes the evidence file and returns the exit code.
 func (r *Report) Finish(evidenceDir string, known *knownFile, checkerCmd string, seed int, printOK bool) int {
 	// vacuity floor
@@ -264,7 +289,7 @@ func (r *Report) Finish(evidenceDir string, known *knownFile, checkerCmd string,
 		"level":       "other",
 		"coverage":    cov,
 		"assumptions": r.Assume,
-		"wall_s":      time.Since(r.start).Seconds(),
+		"wall_s":      time.Since(processStart).Seconds(),
 		"violations":  viol,
 	}
 	if evidenceDir != "" {
